@@ -183,6 +183,11 @@ class Module:
         # Check it's a valid attribute-type
         _assert_module_attr(self, val)
 
+        # Refuse additions after elaboration *before* naming `val`:
+        # it may be an attribute we already hold (`m.y = m.x`), which a refused assignment must not rename.
+        if self._elaborated is not None:
+            raise RuntimeError(f"Cannot add {val} to {self} after elaboration.")
+
         # Checks out! Name `val` and add it to our type-based containers.
         val.name = key
         _add(module=self, val=val)
